@@ -52,6 +52,9 @@ func implEval(x *sess, src string, budget int) (res implRes) {
 	savedOut := x.s.Out
 	cc := &countCtx{Context: context.Background(), limit: budget}
 	x.s.Context = cc
+	if x.noContext {
+		x.s.Context = nil // a library user calling State.Eval on a state it made itself: no context at all
+	}
 	defer func() {
 		if r := recover(); r != nil {
 			res.panicked = panicClass(r, debug.Stack())
@@ -104,12 +107,20 @@ func c01Compare(kind string, inputs []string) *core.Viol {
 		}
 		want = append(want, r)
 	}
-	for _, cfg := range []sessCfg{{noReg: true, cacheOff: true}, {}} {
+	cfgs := []sessCfg{{noReg: true, cacheOff: true}, {}}
+	if kind == "stmt" && len(inputs) <= 2 {
+		cfgs = append(cfgs, sessCfg{}) // third: the default configuration evaluated without any context
+	}
+	for ci, cfg := range cfgs {
 		name := "plain"
 		if !cfg.noReg {
 			name = "default"
 		}
 		x := newSess(cfg)
+		if ci == 2 {
+			name = "no-context"
+			x.noContext = true
+		}
 		for i, src := range inputs {
 			got := implEval(x, src, 300000)
 			if got.budget {
@@ -365,6 +376,17 @@ func runC01(c *core.Ctx) {
 							return &core.Viol{Class: "error-not-the-one-raised", Detail: fmt.Sprintf("cfg %+v: %s", cfg, r), Case: cs}
 						}
 					}
+					// and on a state without any context (State.Eval called by a library user)
+					x := newSess(sessCfg{})
+					x.noContext = true
+					if r := implEval(x, src, 0); r.isErr || r.out != "MARK7\n" {
+						return &core.Viol{Class: "error-not-the-one-raised", Detail: fmt.Sprintf("no context: out=%q err=%q %s", r.out, r.errText, r.panicked), Case: cs}
+					}
+					// the construct repeated more often than the evaluator's nesting bound: nothing may accumulate per caught error
+					leak := "h = func(..) { 1 }; m = {}; for 340000 { catch(" + strings.Replace(scope, "%s", "func() { "+body+" }()", 1) + ") }; println(\"done\")"
+					if r := runProgram(sessCfg{}, leak); r.panicked || len(r.errs) > 0 || !strings.HasSuffix(r.out, "done\n") {
+						return &core.Viol{Class: "caught-errors-accumulate", Detail: fmt.Sprintf("340000 repetitions: %s", trunc(r.String(), 300)), Case: cs}
+					}
 					return nil
 				})
 				o := "same"
@@ -374,7 +396,7 @@ func runC01(c *core.Ctx) {
 				c.CountNT("errid: "+src, o, true)
 			}
 		}
-		bounds = append(bounds, fmt.Sprintf("error identity: %d constructs x 3 scopes whose operand raises error(\"MARK7\"): the message caught around the construct is MARK7", len(ctxs)))
+		bounds = append(bounds, fmt.Sprintf("error identity: %d constructs x 3 scopes whose operand raises error(\"MARK7\"): the message caught around the construct is MARK7 (also on a state without context), and 340000 repetitions of the caught construct still run", len(ctxs)))
 	}
 	c.P.Bound = strings.Join(bounds, "; ") + "; each in the plain (no registers, cache off) and default configuration"
 }
